@@ -1,2 +1,60 @@
-From GB Require Import Bucket BucketOpen Gc.
-Example C03_placeholder : True. Proof. exact I. Qed.
+(* C03 -- GC never changes what any key reads (no loss, no resurrection).
+   Property theorems only; proofs live in proofs/GcView.v. *)
+From Coq Require Import NArith ZArith List Bool String.
+From GB Require Import Consts Words Hash Compress Bucket BucketOpen Gc CheckL2 RefMap Refine Restart2 Restart4 GcView.
+Import ListNotations.
+Open Scope N_scope.
+
+(* (1) ONE PASS (no hint merge), for ALL ranges begin <= end below the head file and ALL bucket states that satisfy
+   the refinement relation of C01 plus the GC precondition GPre (below): after the pass the SAME reference map
+   still describes the bucket -- every key reads exactly what it read before: value, flags, version; deleted
+   keys stay deleted, absent keys stay absent.  The pass is the model function the correspondence check
+   replays: newest-test per record, copy with destination switches, in-place rewriting of the first file of
+   the range with its stale tail, conditional repoint, source clearing, final truncation. *)
+Theorem C03_gc_preserves_reads : forall (cf : cfg) (hf : bytes -> N) (K : list bytes),
+  (forall k1 k2, In k1 K -> In k2 K -> hf k1 = hf k2 -> k1 = k2) -> 0 < c_splitcap cf ->
+  forall b m begin_ end_,
+  Rel hf K b m -> GPre cf hf K b -> (begin_ <= end_ < b_head b)%nat ->
+  Rel hf K (fst (gc_pass cf hf b begin_ end_ false)) m.
+Proof. exact gc_pass_view. Qed.
+Print Assumptions C03_gc_preserves_reads.
+
+(* (2) the precondition is met by every state that client operations and clean restarts (with any index files
+   removed) can reach (their invariant is C02's), provided no record extends past DataFileMax -- which
+   holds as long as DataFileMax is never lowered below an existing file's extent and no single record
+   exceeds it *)
+Theorem C03_reachable_states_qualify : forall cf hf K b, XInv hf K b -> FMok cf b -> GPre cf hf K b.
+Proof. exact xinv_gpre. Qed.
+Print Assumptions C03_reachable_states_qualify.
+
+(* (3) and life goes on: a GC pass followed by ANY history of client operations answers exactly as the
+   reference map does, the pass itself being invisible *)
+Theorem C03_gc_then_history : forall (lc : l2cfg) (K : list bytes) b m x y ops sops,
+  (forall k1 k2, In k1 K -> In k2 K -> forced_hash (l_forced lc) k1 = forced_hash (l_forced lc) k2 -> k1 = k2) ->
+  0 < c_splitcap (l_cfg lc) ->
+  Rel (forced_hash (l_forced lc)) K b m -> GPre (l_cfg lc) (forced_hash (l_forced lc)) K b -> (x <= y < b_head b)%nat ->
+  sops_of ops = Some sops -> ops_ok lc K m sops ->
+  model_run lc b (OGc x y false :: ops) = POk :: spec_run (c_checkvhash (l_cfg lc)) m sops.
+Proof.
+  intros lc K b m x y ops sops Hinj Hcap HR HP Hr Hs Hok. cbn [model_run l2_step].
+  pose proof (gc_pass_view (l_cfg lc) (forced_hash (l_forced lc)) K Hinj Hcap b m x y HR HP Hr) as HR'.
+  destruct (gc_pass (l_cfg lc) (forced_hash (l_forced lc)) b x y false) as [b' gs]. cbn [fst] in HR'. cbn [proj proj_out].
+  f_equal. exact (run_refines lc K Hinj ops b' m sops HR' Hs Hok).
+Qed.
+Print Assumptions C03_gc_then_history.
+
+(* non-vacuity: three 512-byte files with a superseded value, a delete and live keys; GC over [0,1] rewrites file 0
+   in place and drains file 1 into it; every key reads as before *)
+Definition ex3_lc : l2cfg := mkL2 (mkCfg 512 4096 16 false 3 false 1) [] 0.
+Definition ex3_z : zinfo := mkZ true 0 0.
+Definition ex3_pre : list l2op :=
+  [OSet "6b31" "6161" 0 0 1 ex3_z; OSet "6b32" "6262" 0 0 2 ex3_z; OSet "6b31" "6363" 0 0 3 ex3_z; OSet "6b33" "6464" 0 0 4 ex3_z;
+   ODel "6b32"; OSet "6b34" "6565" 0 0 5 ex3_z; OFlush].
+Definition ex3_reads : list l2op := [OGet "6b31"; OGet "6b32"; OGet "6b33"; OMeta "6b31"; OMeta "6b32"].
+
+Example C03_nonvacuous :
+  model_run ex3_lc bucket0 (ex3_pre ++ OGc 0 1 false :: ex3_reads) =
+  model_run ex3_lc bucket0 ex3_pre ++ POk :: skipn (List.length ex3_pre) (model_run ex3_lc bucket0 (ex3_pre ++ ex3_reads)) /\
+  skipn (List.length ex3_pre) (model_run ex3_lc bucket0 (ex3_pre ++ ex3_reads)) =
+    [PHit (unhex "6363") 0; PMiss; PHit (unhex "6464") 0; PMeta 2 (vhash (unhex "6363")) 0 2; PMeta (-2) 0 0 0].
+Proof. split; vm_compute; reflexivity. Qed.
